@@ -146,6 +146,9 @@ class FftHooks(Hooks):
         if fn == 'check.fft_pair' and out.ok and out.value.get('premise'):
             v = out.value
             sig_base = {'grid': v['grid'], 'pupil': v['pupil']}
+            if tag.get('backward'):
+                sig_base['direction'] = 'image-to-pupil'
+                it.probe('backward_hop')
             it.probe('grid:' + v['grid'])
             if v['pupil'] in ('odd', 'mixed') and v['grid'] in ('even', 'mixed'):
                 it.probe('odd_pupil_even_grid')
@@ -186,7 +189,7 @@ class FftScenario(Scenario):
                    'per-axis pixel scales are generated commensurate with one propagation wavelength; otherwise FFT != DFT by construction',
                    'the DFT reference is the real propagate_dft (an error common to both propagators is C01/C02 territory)']
     must_hit = ['grid:odd', 'grid:even', 'odd_pupil_even_grid', 'multifield_scratch', 'scratch:exact', 'scratch:larger',
-                'grid_shrinks', 'grid_grows', 'refuse:short-scratch', 'refuse:tilt', 'refuse:big-shape', 'refuse:tilt-not-angular', 'shape_in_caller_array', 'field_view_edited_before_propagation', 'coarse_quick_look_first', 'refuse:tilt-backward']
+                'grid_shrinks', 'grid_grows', 'refuse:short-scratch', 'refuse:tilt', 'refuse:big-shape', 'refuse:tilt-not-angular', 'shape_in_caller_array', 'field_view_edited_before_propagation', 'coarse_quick_look_first', 'refuse:tilt-backward', 'backward_hop']
     probe_names = must_hit + ['grid:mixed', 'coldwarm_audit']
 
     def make_fns(self):
@@ -326,6 +329,20 @@ class FftScenario(Scenario):
                 rn = nid('R')
                 ev.append(E('propagate_fft', ['@' + w1], dict(k), id=rn, t=dict(tag)))
             ev.append(E('check.fft_pair', ['@' + w1, '@' + rs if rs else None, '@' + rn if rn else None, du, os_]))
+            if rn is not None and 'shape' not in k and not peraxis and isinstance(dx, float) and (rng.random() < 0.3 or force):
+                # ... and back: the image-plane result (the whole grid) sent to a pupil plane sampled like the entrance pupil, with and
+                # without the shared scratch buffer -- judged like any other hop, against the DFT of the very same input
+                kb = {'pixelscale': dx, 'oversample': 1}
+                if rng.random() < 0.5:
+                    kb['shape'] = [max(2, min(gr, S[0] + rng.randint(0, 3))), max(2, min(gc, S[1] + rng.randint(0, 3)))]
+                rb = nid('R')
+                ev.append(E('propagate_fft', ['@' + rn], dict(kb), id=rb, t={'expect': 'ok', 'case': 'backward', 'nfields': 1}))
+                rbs = None
+                if sc is not None and i == lam_max_i and rng.random() < 0.6:
+                    rbs = nid('R')
+                    ev.append(E('propagate_fft', ['@' + rn], dict(kb, scratch='@' + sc), id=rbs, inplace=['@' + sc],
+                                t={'expect': 'ok', 'case': 'backward', 'nfields': 1, 'size': 'larger'}))
+                ev.append(E('check.fft_pair', ['@' + rn, '@' + rbs if rbs else None, '@' + rb, dx, 1], t={'backward': True}))
             os2 = os_ % 3 + 1
             g2 = lam[i] * f * os2 / (dx * d0)
             fits = abs(g2 - round(g2)) <= 0.3 and round(g2) >= max(S)      # supported regime, unambiguous grid
